@@ -18,6 +18,7 @@
    Two quirks of the code are transcribed as they are (see IsLinked): the ONLY listed node has no links, so it can be
    neither revoked nor (de)activated; and a revoked node keeps its entry, so it can never be added again.          *)
 EXTENDS Integers, Sequences, FiniteSets
+LOCAL INSTANCE SequencesExt          \* FoldLeft (CommunityModules)
 
 CONSTANTS Nodes,        \* node masters (strings)
           Endorsors,    \* endorsor accounts (strings)
@@ -25,7 +26,7 @@ CONSTANTS Nodes,        \* node masters (strings)
           Cap,          \* thor.InitialMaxBlockProposers (101): PoA never schedules over more than Cap proposers
           None
 
-Range(s) == {s[i] : i \in DOMAIN s}
+Rng(s) == {s[i] : i \in DOMAIN s}
 
 VARIABLES head, tail,    \* storage: headKey / tailKey
           ent,           \* storage: node -> [e (endorsor | None), act, prev, next]   (identity is a constant of the node)
@@ -54,10 +55,12 @@ GetOf(n) == [listed |-> Listed(n), e |-> ent[n].e, act |-> ent[n].act]
 First == head
 NextOf(n) == ent[n].next
 
-\* walking the links from p, at most k steps (k bounds the recursion; the invariants say it is never exhausted)
-RECURSIVE Walk(_, _)
-Walk(p, k) == IF p = None \/ k = 0 THEN <<>> ELSE <<p>> \o Walk(ent[p].next, k - 1)
-Links == Walk(head, Cardinality(Nodes) + 1)
+\* walking the links from the head, at most |Nodes| + 1 steps (the invariants say the bound is never exhausted).
+\* FoldLeft (eager accumulator) instead of recursion: TLC re-evaluates lazy operator arguments at every level of a
+\* recursion, which made lists of ~100 nodes take hours.
+Steps == [i \in 1..(Cardinality(Nodes) + 1) |-> i]
+Links == FoldLeft(LAMBDA acc, i : IF acc.p = None THEN acc ELSE [s |-> Append(acc.s, acc.p), p |-> ent[acc.p].next],
+                  [s |-> <<>>, p |-> head], Steps).s
 
 Endorsed(e) == e # None /\ bal[e] >= Endorsement           \* balance check before HAYABUSA
 
@@ -66,13 +69,10 @@ Endorsed(e) == e # None /\ bal[e] >= Endorsement           \* balance check befo
 Limit == IF mbp = 0 \/ mbp > Cap THEN Cap ELSE mbp
 
 \* Candidates(checker, limit): for ptr != nil && len < limit { if checker(endorsor) append; ptr = next }
-RECURSIVE CandFrom(_, _, _)
-CandFrom(p, limit, k) ==
-  IF p = None \/ limit = 0 \/ k = 0 THEN <<>>
-  ELSE IF Endorsed(ent[p].e) THEN <<[n |-> p, e |-> ent[p].e, act |-> ent[p].act]>> \o CandFrom(ent[p].next, limit - 1, k - 1)
-       ELSE CandFrom(ent[p].next, limit, k - 1)
-Candidates(limit) == CandFrom(head, limit, Cardinality(Nodes) + 1)
-AllCandidates == LET w == Links IN [i \in DOMAIN w |-> [n |-> w[i], e |-> ent[w[i]].e, act |-> ent[w[i]].act]]
+CandRec(n) == [n |-> n, e |-> ent[n].e, act |-> ent[n].act]
+Candidates(limit) == FoldLeft(LAMBDA acc, n : IF Len(acc) < limit /\ Endorsed(ent[n].e) THEN Append(acc, CandRec(n)) ELSE acc,
+                              <<>>, Links)
+AllCandidates == FoldLeft(LAMBDA acc, n : Append(acc, CandRec(n)), <<>>, Links)
 
 \* ---- contract: writes (each is [ok, head, tail, ent]) ----------------------------------------------------------
 Same == [ok |-> FALSE, head |-> head, tail |-> tail, ent |-> ent]
@@ -102,12 +102,11 @@ IsEndorsed(n) == Listed(n) /\ Endorsed(ent[n].e)
 
 \* ---- validator / packer: the proposer list -----------------------------------------------------------------------
 \* scheduler.Candidates.Pick: satisfied (cached unless empty) = indices of the first mbp endorsed entries of the snapshot
-RECURSIVE SatFrom(_, _, _)
-SatFrom(l, i, limit) ==
-  IF i > Len(l) \/ limit = 0 THEN <<>>
-  ELSE IF Endorsed(l[i].e) THEN <<i>> \o SatFrom(l, i + 1, limit - 1) ELSE SatFrom(l, i + 1, limit)
-SatOf(c) == IF c.sat = <<>> THEN SatFrom(c.list, 1, Limit) ELSE c.sat      \* `if len(satisfied) == 0` recompute
-Pick(c) == LET s == SatOf(c) IN [i \in DOMAIN s |-> [n |-> c.list[s[i]].n, act |-> c.list[s[i]].act]]
+SatOf(c) == IF c.sat # <<>> THEN c.sat                                  \* `if len(satisfied) == 0` recompute
+            ELSE FoldLeft(LAMBDA acc, x : [i |-> acc.i + 1,
+                                           s |-> IF Len(acc.s) < Limit /\ Endorsed(x.e) THEN Append(acc.s, acc.i) ELSE acc.s],
+                          [i |-> 1, s |-> <<>>], c.list).s
+Pick(c) == FoldLeft(LAMBDA acc, i : Append(acc, [n |-> c.list[i].n, act |-> c.list[i].act]), <<>>, SatOf(c))
 FreshCands == [list |-> AllCandidates, sat |-> <<>>]
 Proposers(c) == Pick(c)
 PackerProposers == LET c == Candidates(Limit) IN [i \in DOMAIN c |-> [n |-> c[i].n, act |-> c[i].act]]
@@ -194,18 +193,18 @@ EndBlock ==
   /\ UNCHANGED <<cvars, signer, cur, evA, evE>>
 
 \* ---- invariants --------------------------------------------------------------------------------------------------
-NoDup(s) == Cardinality(Range(s)) = Len(s)
+NoDup(s) == Cardinality(Rng(s)) = Len(s)
 
 \* the links spell the insertion order of the listed nodes, without duplicates; head/tail/prev/next agree
 ListIsInsertionOrder ==
   /\ Links = alist /\ NoDup(alist)
-  /\ \A n \in Nodes : Listed(n) <=> n \in Range(alist)
+  /\ \A n \in Nodes : Listed(n) <=> n \in Rng(alist)
 HeadTailConsistent ==
   /\ (alist = <<>>) <=> (head = None)
   /\ (head = None) <=> (tail = None)
   /\ alist # <<>> => head = alist[1] /\ tail = alist[Len(alist)] /\ ent[head].prev = None /\ ent[tail].next = None
   /\ \A i \in 1..(Len(alist) - 1) : ent[alist[i]].next = alist[i + 1] /\ ent[alist[i + 1]].prev = alist[i]
-  /\ \A n \in Nodes \ Range(alist) : ent[n].prev = None /\ ent[n].next = None /\ ~ent[n].act
+  /\ \A n \in Nodes \ Rng(alist) : ent[n].prev = None /\ ent[n].next = None /\ ~ent[n].act
 \* Candidates(limit) = the first `limit` endorsed listed nodes in order; the packer's and a cache-less validator's
 \* derivations coincide
 CandidatesAreFirstEndorsed ==
@@ -218,7 +217,7 @@ CandidatesAreFirstEndorsed ==
      /\ Len(got) <= Cap /\ Limit >= 1 /\ Limit <= Cap         \* the cap: never more than Cap proposers, whatever the param
 \* a revoked node is unlisted for good: it is never the signer of a later block (BeginBlock needs signer in the list)
 RevokedNeverProposes ==
-  /\ revoked \cap Range(alist) = {}
+  /\ revoked \cap Rng(alist) = {}
   /\ phase = "between" => \A n \in revoked : n \notin NodesOf(Proposers(IF cache # <<>> THEN cache[1] ELSE FreshCands))
   /\ \A n \in revoked : ~IsEmpty(ent[n])                      \* ... and can never be added again
 \* cache == recomputation: between blocks the cached object yields the proposer list a fresh validator computes.
